@@ -223,8 +223,11 @@ pub fn family(code: u16, extra: usize) -> Vec<(Vec<u8>, bool)> {
                             }
                         }
                     }
-                    for (c, expect) in variants {
-                        let mut m = vec![0x51, 0x52, 0x84, 0x00];
+                    for (vi, (c, expect)) in variants.into_iter().enumerate() {
+                        // the header flags must not influence framing: cycle through response,
+                        // truncated response, truncated query and an UPDATE opcode
+                        let fl: [u8; 2] = [[0x84, 0x00], [0x86, 0x00], [0x02, 0x00], [0xa8, 0x03]][(r + nsent + vi + fi) % 4];
+                        let mut m = vec![0x51, 0x52, fl[0], fl[1]];
                         for x in c {
                             m.extend_from_slice(&x.to_be_bytes());
                         }
@@ -277,7 +280,8 @@ pub fn run(ctx: &Ctx) {
         for x in xs.iter() {
             for &code in codes_ref.iter() {
                 for rdlen in 0..=x.len() + 1 {
-                    let mut m = vec![0x51, 0x52, 0x84, 0x00, 0, 0, 0, 2, 0, 0, 0, 0];
+                    let fl: [u8; 2] = [[0x84, 0x00], [0x86, 0x00], [0x02, 0x00]][(x.len() + rdlen) % 3];
+                    let mut m = vec![0x51, 0x52, fl[0], fl[1], 0, 0, 0, 2, 0, 0, 0, 0];
                     m.extend_from_slice(&rec_header("m", code, 0x0101_0101, rdlen));
                     m.extend_from_slice(x);
                     if rdlen <= x.len() {
@@ -301,6 +305,34 @@ pub fn run(ctx: &Ctx) {
         total2.fetch_add(n, std::sync::atomic::Ordering::Relaxed);
     });
     ctx.space(&format!("free RDATA sweep: 42 type codes x every X of length <= {} over 9 symbols x RDLENGTH 0..=|X|+1, followed by a sentinel record", l), total2.load(std::sync::atomic::Ordering::Relaxed), "complete");
+    // every proper prefix of well-framed messages, under each header flag variant (a truncated
+    // message is not a shorter message: counts and lengths that run past the end mean rejection)
+    let mut t = Tally::default();
+    let mut np = 0u64;
+    for code in [1u16, 16, 15, 6, 41] {
+        for (m, expect) in family(code, 0).into_iter().filter(|(_, e)| *e) {
+            for fl in [[0x84u8, 0x00], [0x86, 0x00], [0x02, 0x00], [0x87, 0x80]] {
+                let mut m = m.clone();
+                m[2] = fl[0];
+                m[3] = fl[1];
+                for cut in 12..m.len() {
+                    t.evals += 1;
+                    np += 1;
+                    let (f, tag, acc) = check_msg(&m[..cut], false);
+                    if acc {
+                        t.nontrivial += 1;
+                    }
+                    t.outcome(tag);
+                    if !f.is_empty() {
+                        ctx.violations(f);
+                    }
+                }
+                let _ = expect;
+            }
+        }
+    }
+    ctx.merge(t);
+    ctx.space("proper prefixes: every cut of every well-framed message of 5 type families under 4 header flag variants (TC set and clear)", np, "complete");
     let fam = family(1, extra);
     ctx.sample(json!({"kind": "msg", "msg": hex(&fam[fam.len() / 2].0), "expect_accept": fam[fam.len() / 2].1}));
     ctx.sample(json!({"kind": "msg", "msg": hex(&fam[fam.len() - 1].0), "expect_accept": fam[fam.len() - 1].1}));
